@@ -792,6 +792,10 @@ func (g *Gen) applyContract(fc *FuncContract, pc *PkgContracts, pkg *types.Packa
 	}
 	pre := g.heap.clone()
 	env := &Env{vars: map[string]Val{}, heap: pre, old: pre, pkg: pkg, pc: pc}
+	if pc != nil && pc != g.pc {
+		// the callee's contract speaks its own package's specification vocabulary: bring its axioms along
+		g.importAxioms(pc, env)
+	}
 	for i, p := range params {
 		a := args[i]
 		if a.K == kPtr {
@@ -922,6 +926,17 @@ func (g *Gen) applyCallSite(cs *CallSiteSpec, site string, c *ssa.CallCommon, rt
 	env := g.localEnv()
 	env.heap = pre
 	env.pre = pre
+	// the call's actual arguments are available as arg0, arg1, ... (receiver of an interface call first)
+	{
+		var as []ssa.Value
+		if c.IsInvoke() {
+			as = append(as, c.Value)
+		}
+		as = append(as, c.Args...)
+		for i, a := range as {
+			env.vars[fmt.Sprintf("arg%d", i)] = g.val(a)
+		}
+	}
 	for i, cl := range cs.Requires {
 		g.oblig("call-pre", site+"."+clauseName(cl, i), g.evalBool(cl.Expr, env), cl.Src, pos, true)
 	}
